@@ -39,7 +39,9 @@ RULE = (
     "the manager filter (x/y or distance ranges); 1/3/9 area divisions; objects exactly on area / distance boundaries "
     "(BASE_LINK); 4..7 selections per case (label, scene, frame, area, status, uuid, distance, combinations, inverted "
     "distance); flavours: plain (F11 frequent), no_f11, n1 (TP pairs with different labels, finding N1), empty (finding N2); "
-    "a case is non-trivial when its table has at least one row; distinct = distinct canonical case"
+    "a case is non-trivial when its table has at least one row; distinct = distinct canonical case; "
+    "first of all the witness inputs of the decision tables (kinds 'area', 'rows'): concrete inputs realising the valuations on which "
+    "the code's regenerated table and the model's skeleton differ (none on an unchanged source)"
 )
 THEOREMS = [
     "PEval.C19." + t
@@ -55,12 +57,21 @@ THEOREMS = [
         "confusion_sum", "confusion_none_iff",
         "area_idx_unique", "area_idx_inside",
         "num_props_empty",
+        # decision tables extracted from the real code (harness/dt_c19.py), regenerated on every run
+        "analyzer_table_check", "analyzer_code_table_eq_model", "area_code_table_eq_getAreaIdx", "table_area_spec",
+        "table_on_grid_line", "rows_code_table_eq_model", "table_rows_per_item", "table_rows_examples",
     ]
 ]
 TRUSTED = [
     "pandas (MultiIndex frames, xs, boolean masks, groupby(level=0).any(), concat) is modelled by lists of row pairs",
     "pyquaternion yaw_pitch_roll / HomogeneousMatrix inverse: ego-frame x, y, yaw are supplied by the harness from the generated scene (truth), the real values are compared within 1e-9",
     "numpy mean/std/sqrt/max/min/bincount: the model computes mean, RMS^2, variance, max|e|, min|e| exactly",
+    "harness/dt_c19.py + harness/dtable.py + harness/dt_multi.py (decision-table translator): the symbolic numbers (rational linear "
+    "forms that numpy stores in object arrays; a comparison is answered from one order atom per (position, grid line); the sign of "
+    "c*max_x is the sign of c), the stub object / transform (an object exposes frame_id and state.position, the transform answers the "
+    "ego-frame leaves), the result proxies of the row-status kernel (delegation to a real result with / without ground truth), the "
+    "DFS over decisions, the encoding of the DataFrame as a number, the Lean emission; order atoms of different grid lines are "
+    "treated as independent (over-approximation)",
 ]
 ASSUMPTIONS = [
     "ground truths of one frame are pairwise distinct under DynamicObject.__eq__ and have distinct uuids (C03's hypothesis)",
@@ -322,7 +333,71 @@ def _status(frames):
              "tn": list(s.tn_frame_nums), "fn": list(s.fn_frame_nums)} for s in get_object_status(frames)]
 
 
+def _run_area(case):
+    """kind 'area': the real generate_area_points + get_area_idx on a real object at the ego-frame position (x, y)"""
+    from perception_eval.common.schema import FrameID
+    from perception_eval.common.transform import HomogeneousMatrix, TransformDict
+    from perception_eval.evaluation.result.object_result import DynamicObjectWithPerceptionResult
+    from perception_eval.tool.utils import generate_area_points, get_area_idx
+
+    o = _mk({"u": "o", "l": "car", "x": case["x"], "y": case["y"], "yaw": 0, "v": None, "w": 2.0, "len": 4.0}, 1000, "base_link", None)
+    tf = TransformDict([HomogeneousMatrix((0.0, 0.0, 0.0), (1.0, 0.0, 0.0, 0.0), FrameID.BASE_LINK, FrameID.MAP)])
+    try:
+        ur, bl = generate_area_points(case["division"], case["max_x"], case["max_y"])
+        out = {"areas": {"ur": [[float(a), float(b)] for a, b in ur], "bl": [[float(a), float(b)] for a, b in bl]}}
+    except Exception as e:
+        return {"err": type(e).__name__, "stage": "generate_area_points"}
+    try:
+        arg = DynamicObjectWithPerceptionResult(o, None, transforms=tf) if case.get("wrapped") else o
+        r = get_area_idx(arg, ur, bl, tf)
+        out["area"] = None if r is None else int(r)
+    except Exception as e:
+        out["err"] = type(e).__name__
+        out["stage"] = "get_area_idx"
+    return out
+
+
+def _run_rows(case):
+    """kind 'rows': the real PerceptionAnalyzer3D.add on ONE frame whose pass/fail lists hold real results / objects"""
+    from types import SimpleNamespace
+
+    from perception_eval.common.schema import FrameID
+    from perception_eval.common.transform import HomogeneousMatrix, TransformDict
+    from perception_eval.evaluation.result.object_result import DynamicObjectWithPerceptionResult as Res
+    from perception_eval.tool import PerceptionAnalyzer3D
+
+    cfg = _config({"task": "detection", "frame_id": "base_link", "labels": ["car", "pedestrian"], "policy": "default",
+                   "range": {"kind": "xy", "max_x": 96.0, "max_y": 96.0}})
+    tf = TransformDict([HomogeneousMatrix((0.0, 0.0, 0.0), (1.0, 0.0, 0.0, 0.0), FrameID.BASE_LINK, FrameID.MAP)])
+    mk = lambda u, x: _mk({"u": u, "l": "car", "x": x, "y": 5.0, "yaw": 0, "v": [1.0, 0.0], "w": 2.0, "len": 4.0}, 1000, "base_link", None)  # noqa: E731
+    a, b, c, d = case["counts"]
+    lists = [[], [], [], []]
+    j = 0
+    for kind, cnt in enumerate((a, b, c, d)):
+        for i in range(cnt):
+            e, g = mk(f"e{j}", 10.0 + 20.0 * j), mk(f"g{j}", 10.5 + 20.0 * j)
+            if kind < 2:
+                none = (case["tp_none"] if kind == 0 else case["fp_none"])[i]
+                lists[kind].append(Res(e, None if none else g, transforms=tf))
+            else:
+                lists[kind].append(g)
+            j += 1
+    pf = SimpleNamespace(tp_object_results=lists[0], fp_object_results=lists[1], tn_objects=lists[2], fn_objects=lists[3])
+    frame = SimpleNamespace(frame_name="7", pass_fail_result=pf, frame_ground_truth=SimpleNamespace(transforms=tf))
+    try:
+        an = PerceptionAnalyzer3D(cfg)
+        an.add([frame])
+        rows = _rows(an.df)
+    except Exception as e:
+        return {"err": type(e).__name__, "stage": "add"}
+    return {"rows": rows}
+
+
 def run_impl(case):
+    if case.get("kind") == "area":
+        return _run_area(case)
+    if case.get("kind") == "rows":
+        return _run_rows(case)
     from perception_eval.tool import PerceptionAnalyzer3D
 
     try:
@@ -418,6 +493,8 @@ def _msel(sel):
 
 
 def model_requests(case, out):
+    if case.get("kind") in ("area", "rows"):
+        return []  # these inputs are judged by the oracle; their tie to the model is the table theorem
     if "frames" not in out or "rows" not in out:
         return []
     mx, my = _area_max(case)
@@ -746,7 +823,70 @@ def _check(case, out):
     return fails
 
 
+def _oracle_area(case, out):
+    """the analyzer must be able to tabulate an item at ANY ego-frame position: get_area_idx answers None or the index of a
+    rectangle of the grid that strictly contains the position, and never raises"""
+    x, y = Fraction(case["x"]), Fraction(case["y"])
+    where = f"division {case['division']}, max ({case['max_x']}, {case['max_y']}), ego-frame position ({case['x']}, {case['y']})"
+    if "err" in out:
+        return f"{out.get('stage')} raised {out['err']} ({where}): the analyzer cannot tabulate an item there"
+    ur, bl = out["areas"]["ur"], out["areas"]["bl"]
+    inside = [i for i, (u, b) in enumerate(zip(ur, bl)) if Fraction(b[0]) < x < Fraction(u[0]) and Fraction(u[1]) < y < Fraction(b[1])]
+    # independent reference: the thirds of [-max, max] (exact), only when the bounds are thirds-exact in floats
+    mx, my = Fraction(case["max_x"]), Fraction(case["max_y"])
+    nx = 1 if case["division"] == 1 else 3
+    ny = 3 if case["division"] == 9 else 1
+    in_x = any(-mx + 2 * mx * k / nx < x < -mx + 2 * mx * (k + 1) / nx for k in range(nx))
+    in_y = any(-my + 2 * my * k / ny < y < -my + 2 * my * (k + 1) / ny for k in range(ny))
+    a = out["area"]
+    if a is None:
+        if in_x and in_y:
+            return f"get_area_idx = None although the position lies strictly inside a cell ({where})"
+        return None
+    if not (in_x and in_y):
+        return f"get_area_idx = {a} although the position lies on a grid line or outside the field ({where})"
+    if inside != [a]:
+        return f"get_area_idx = {a}, but the rectangles of the grid strictly containing the position are {inside} ({where})"
+    return None
+
+
+def _oracle_rows(case, out):
+    """one row pair per TP, FP, TN, FN item, in this order, numbered 0, 1, ...; TP / FP: (ground-truth row or the all-None row,
+    estimation row) with the list's status; TN / FN: (ground-truth row, all-None row)"""
+    if "err" in out:
+        return f"{out.get('stage')} raised {out['err']} for a frame with counts {case['counts']}"
+    rows = out["rows"]
+    a, b, c, d = case["counts"]
+    exp = []
+    j = 0
+    for kind, cnt in enumerate((a, b, c, d)):
+        for i in range(cnt):
+            st = ("TP", "FP", "TN", "FN")[kind]
+            if kind < 2:
+                none = (case["tp_none"] if kind == 0 else case["fp_none"])[i]
+                exp.append((None if none else (st, f"g{j}"), (st, f"e{j}")))
+            else:
+                exp.append(((st, f"g{j}"), None))
+            j += 1
+    if isinstance(rows, dict) or len(rows) != len(exp):
+        return f"table has {rows if isinstance(rows, dict) else len(rows)} row pairs for {len(exp)} items (counts {case['counts']})"
+    for k, (row, (eg, ee)) in enumerate(zip(rows, exp)):
+        if row[0] != k or row[3] != k or row[1] != "ground_truth" or row[4] != "estimation":
+            return f"row pair {k}: index/side {row[:2]} {row[3:5]}"
+        for side, want, cell in (("ground_truth", eg, row[2]), ("estimation", ee, row[5])):
+            got = None if cell is None else (cell["st"], cell["u"])
+            if got != want:
+                return f"row {k} {side}: expected {want or 'the all-None row'}, got {got or 'the all-None row'} (counts {case['counts']}, tp_none {case['tp_none']}, fp_none {case['fp_none']})"
+            if cell is not None and (cell["frame"] != 7 or cell["scene"] != 0):
+                return f"row {k} {side}: frame/scene {cell['frame']}/{cell['scene']}, expected 7/0"
+    return None
+
+
 def oracle(case, out):
+    if case.get("kind") == "area":
+        return _oracle_area(case, out)
+    if case.get("kind") == "rows":
+        return _oracle_rows(case, out)
     fails = _check(case, out)
     if not fails:
         return None
@@ -771,6 +911,8 @@ def _n1_explains(case, out, info):
 
 
 def known_finding(case, out, failure):
+    if case.get("kind") in ("area", "rows"):
+        return None
     fails = _check(case, out)
     if not fails:
         return None
@@ -977,9 +1119,46 @@ def _empty_case(rng, with_frames):
     return case
 
 
+def table_witness_cases():
+    """concrete inputs realising the valuations on which the code's decision tables (harness/dt_c19.py) and the model's skeletons
+    differ; empty on an unchanged source. Never raises."""
+    try:
+        from .. import dt_c19
+
+        return dt_c19.witness_cases()
+    except Exception:  # noqa: BLE001 - the witness step must never break the check
+        return []
+
+
+def extra_evidence():
+    from .. import dt_c19
+
+    return {"tables": dt_c19.evidence()}
+
+
+_STATE = {}
+
+
+def _table_branches():
+    """once per run: how the tables of the real code came out (`table:untranslatable` = the translator fell back)"""
+    if _STATE.get("table_branches_done"):
+        return []
+    _STATE["table_branches_done"] = True
+    try:
+        from .. import dt_c19
+
+        ev = dt_c19.evidence()
+        b = [f"table:untranslatable:{k}" for k in ev["decision_tables_untranslatable"]]
+        if b:
+            b.append("table:untranslatable")
+        return b + [f"table:{k}:paths={v['paths']}" for k, v in ev["decision_tables"].items()]
+    except Exception:  # noqa: BLE001
+        return ["table:untranslatable"]
+
+
 def generate(rng, tier):
     n = 69 if tier == "quick" else 460
-    cases = []
+    cases = table_witness_cases()
     for i in range(n):
         r = i % 23
         if r % 2 == 1 and r not in (7, 13, 17):
@@ -1004,7 +1183,9 @@ def corpus():
 
 
 def branches(case, out):
-    b = [f"frame:{case['frame_id']}", f"task:{case['task']}", f"division:{case['division']}", f"policy:{case['policy']}",
+    if case.get("kind") in ("area", "rows"):
+        return [f"kind:{case['kind']}", "table:witness"] + _table_branches() + (["impl-error:" + str(out.get("err"))] if "err" in out else [])
+    b = _table_branches() + [f"frame:{case['frame_id']}", f"task:{case['task']}", f"division:{case['division']}", f"policy:{case['policy']}",
          f"range:{case['range']['kind']}", f"radii:{case.get('radii')}", f"scenes:{len(case['scenes'])}",
          f"frames:{sum(len(s) for s in case['scenes'])}", f"flavour:{case.get('flavour')}"]
     if "frames" not in out or "err" in out or isinstance(out.get("rows"), dict):
@@ -1071,6 +1252,8 @@ def shrink(case):
     """drop scenes, frames, objects, selections"""
     import copy
 
+    if case.get("kind") in ("area", "rows"):
+        return
     if len(case["scenes"]) > 1:
         for i in range(len(case["scenes"])):
             c = copy.deepcopy(case)
@@ -1097,5 +1280,15 @@ def shrink(case):
                     yield c
 
 
+def area_probe_cases():
+    """the area kernel on a lattice of positions for 1 / 3 / 9 divisions (used by the failing-input search only)"""
+    try:
+        from .. import dt_c19
+
+        return [c for _nm, _k1, k2 in dt_c19.AREA_SHAPES for c in dt_c19.probe_cases(k2)]
+    except Exception:  # noqa: BLE001
+        return []
+
+
 def search(rng, st, disagreements):
-    return [_gen_case(rng, rng.choice(["plain", "plain", "no_f11", "n1"])) for _ in range(60)] + [_boundary_case(rng) for _ in range(10)]
+    return table_witness_cases() + area_probe_cases() + [_gen_case(rng, rng.choice(["plain", "plain", "no_f11", "n1"])) for _ in range(60)] + [_boundary_case(rng) for _ in range(10)]
